@@ -333,6 +333,28 @@ theorem C11_index_absent_notfound (sch : Schema) (db : Db) (n : Nat) (kw : Kw) (
     | cons r t => exact absurd ((h2 r).mp List.mem_cons_self).2 (habs r ((h2 r).mp List.mem_cons_self).1)
   rw [h1, this]; rfl
 
+/-! ## several connections -/
+
+/-- **connection isolation.**  A select / count / aggregate issued with `connection=c` (or through the
+    class's own connection when none is given) is the plain query over the rows of THAT connection's
+    database: what was written through any other connection object does not matter, and what was written
+    through `c` does. -/
+theorem C11_connection_isolation (sch : Schema) (s : Store) (c : Nat) (d : Db) (explicit : Option Nat) (classConn : Nat)
+    (sel : Sel) (p : Plan) :
+    (connOf explicit classConn ≠ c →
+      selectOn sch (s.write c d) explicit classConn sel = selectOn sch s explicit classConn sel
+      ∧ aggOn sch (s.write c d) explicit classConn p = aggOn sch s explicit classConn p)
+    ∧ (connOf explicit classConn = c →
+      selectOn sch (s.write c d) explicit classConn sel = evalSelect sch d sel
+      ∧ aggOn sch (s.write c d) explicit classConn p = evalAgg sch d p) := by
+  constructor
+  · intro h; simp [selectOn, aggOn, Store.write, h]
+  · intro h; simp [selectOn, aggOn, Store.write, h]
+
+/-- an explicit `connection=` wins over the class's connection -/
+theorem C11_explicit_connection_wins (c classConn : Nat) : connOf (some c) classConn = c ∧ connOf none classConn = classConn :=
+  ⟨rfl, rfl⟩
+
 /-! ## Non-vacuity: concrete tables and queries (evaluated by the kernel) -/
 
 def exSch : Schema :=
